@@ -13,7 +13,7 @@ Definition prs (s : list N) : path := parse N.eqb slashN s.
 Definition rnd (p : path) : list N := render slashN p.
 
 (** a path given as [root_k.join(a1).join(a2)...]; [JParent] is [.parent()] *)
-Inductive jstep := JJoin (arg : list N) | JParent.
+Inductive jstep := JJoin (arg : list N) | JParent | JRoot.
 Record pathspec := PS { ps_fs : nat; ps_steps : list jstep }.
 
 (** the string of the path, or the InvalidPath error of the first rejected join *)
@@ -26,6 +26,7 @@ Fixpoint resolve_steps (cur : list N) (steps : list jstep) : res (list N) :=
       | None => Err (mkErr EInvalidPath (PRaw a))
       end
   | JParent :: rest => resolve_steps (parent_internal N.eqb slashN cur) rest
+  | JRoot :: rest => resolve_steps [] rest       (* VfsPath::root(): the root of the same filesystem *)
   end.
 
 (** [VfsPath == VfsPath] (path.rs, PartialEq): the same filesystem instance (Arc::ptr_eq) and the same string *)
